@@ -108,6 +108,20 @@ def _p_always(x):
     return True
 
 
+import typing as _typing
+
+_GT = _typing.TypeVar('_GT')
+
+
+class GList(list[_GT]):
+    """A user generic with a checkable body: GList[int] and GList[str] reduce to one and the same hint (list[T]) plus a table of
+    type variables - metadata that anything memoised per hint has to be keyed by as well."""
+
+
+_ALIASES = {}
+exec('type GAlias[T] = list[T]\ntype GTree = list[GTree] | int', _ALIASES)
+
+
 def build_hint(h, env):
     import typing
     from typing import Annotated, Literal, Optional, Union
@@ -125,7 +139,15 @@ def build_hint(h, env):
         return Literal[tuple(h['v'])]
     if k == 'fwd':
         return h['n']
+    if k == 'gtree':
+        return _ALIASES['GTree']
+    if k == 'gtree_value':
+        return _ALIASES['GTree'].__value__
     a = [build_hint(x, env) for x in h.get('a', [])]
+    if k == 'glist':
+        return GList[a[0]]
+    if k == 'galias':
+        return _ALIASES['GAlias'][a[0]]
     if k == 'list':
         return list[a[0]]
     if k == 'List':
@@ -217,6 +239,8 @@ def build_obj(o, env):
         return None
     if k == 'list':
         return [build_obj(i, env) for i in o['i']]
+    if k == 'glist':
+        return GList(build_obj(i, env) for i in o['i'])
     if k == 'tuple':
         return tuple(build_obj(i, env) for i in o['i'])
     if k == 'set':
@@ -429,6 +453,26 @@ def generate(rng, run, tier):
         else:
             hist.append({'op': 'mkhint', 'h': nh, 'dsl': gen_hint(rng, nslots)})
             nh += 1
+    if rng.random() < 0.06:
+        # two subscriptions of one user generic / generic alias (equal once reduced, different type-variable tables), or a
+        # recursive alias and its own value: each queried with objects on which the two disagree, in both orders
+        fam = rng.choice(['glist', 'glist', 'galias', 'gtree'])
+        if fam == 'gtree':
+            ha, hb = {'k': 'gtree'}, {'k': 'gtree_value'}
+            objs = [{'o': 'list', 'i': [{'o': 'list', 'i': [{'o': 'str', 'v': 'x'}]}]}, {'o': 'list', 'i': [{'o': 'int', 'v': 1}]},
+                    {'o': 'list', 'i': [{'o': 'list', 'i': [{'o': 'int', 'v': 1}]}]}]
+        else:
+            ca, cb = rng.sample(['int', 'str', 'float', 'bool'], 2)
+            ha, hb = {'k': fam, 'a': [{'k': 'cls', 'n': ca}]}, {'k': fam, 'a': [{'k': 'cls', 'n': cb}]}
+            ok = 'glist' if fam == 'glist' else 'list'
+            sample = {'int': {'o': 'int', 'v': 3}, 'str': {'o': 'str', 'v': 'a'}, 'float': {'o': 'float', 'v': 1.5}, 'bool': {'o': 'bool', 'v': True}}
+            objs = [{'o': ok, 'i': [sample[ca]]}, {'o': ok, 'i': [sample[cb]]}]
+        hist.append({'op': 'mkhint', 'h': nh, 'dsl': ha})
+        hist.append({'op': 'mkhint', 'h': nh + 1, 'dsl': hb})
+        for hh in rng.choice([(nh, nh + 1, nh), (nh + 1, nh, nh + 1)]):
+            for o_ in rng.sample(objs, len(objs)):
+                hist.append({'op': 'query', 'q': rng.choice(['is_bearable', 'is_bearable', 'die', 'decor_call', 'th_is_bearable']), 'h': hh, 'x': o_, 'draw': 0})
+        nh += 2
     if rng.random() < 0.06:
         # two hints that differ only in a Literal member, the two members unequal but with equal hashes: whatever is keyed by a
         # hash alone confuses them
